@@ -241,6 +241,12 @@ theorem short_basis_gauss_reduced {q : Int} (hq : 0 ≤ q) {m r : M2} (h : short
     2 * bilV q r.col1 r.col0 ≤ normV q r.col0 ∧ -normV q r.col0 ≤ 2 * bilV q r.col1 r.col0 :=
   shortBasis_gauss_reduced hq h
 
+/-- **the first output column is a SHORTEST non-zero vector of the input lattice** (q ≥ 0): every non-zero integer
+    combination `x·(col 0) + y·(col 1)` of the INPUT columns has norm ≥ N(first output column). -/
+theorem short_basis_first_is_shortest {q : Int} (hq : 0 ≤ q) {m r : M2} (h : shortBasis q m = some r) {x y : Int}
+    (hxy : ¬(x = 0 ∧ y = 0)) : normV q r.col0 ≤ normV q (m.eval ⟨x, y⟩) :=
+  shortBasis_shortest_input hq h hxy
+
 /-- total correctness: for q > 0 and linearly independent input columns the routine returns (no division by zero,
     the loop terminates: `norm_b` strictly decreases). -/
 theorem short_basis_terminates {q : Int} (hq : 0 < q) {m : M2} (hd : m.det ≠ 0) : (shortBasis q m).isSome = true :=
